@@ -38,6 +38,7 @@ func checkC09(c *Check, a *Anchors) {
 	orderedRebuildSinglePass(c, a, "ordered-rebuild-single-pass")
 	copyReturnsFresh(c, a, "copy-returns-fresh")
 	c09VertexDependsOnNodeOnly(c, a)
+	c08CopyExhaustive(c, a) // a task copy that shares a reference-typed field with its source is written by every includer: which value it ends up with depends on the order of a map range
 }
 
 func loadPhaseRoots(c *Check, a *Anchors) []*FuncBody {
